@@ -132,6 +132,21 @@ func c11ClientReopen(prefix []int) explore.Outcome {
 		if items := strings.Join(got.Items(), ","); items != "warmup,0,1" && len(viol) == 0 {
 			viol = append(viol, V("client-reopen:delivery", "the client's handler received [%s], sent warmup,0,1", items))
 		}
+		// a request the server issues inside the session is delivered on the new stream and answered
+		if rs, ok := cl.(interface{ SetRootsProvider(mcp.RootsProvider) }); ok && len(viol) == 0 {
+			rs.SetRootsProvider(staticRoots{[]mcp.Root{{URI: "file:///second-life"}}})
+			var roots *mcp.ListRootsResult
+			var rerr error
+			rdone := &hx.Flag{}
+			vsched.Go("list-roots", func() { roots, rerr = r.Server.ListRoots(hx.SessionCtx(r.Server, sid2)); rdone.Set() })
+			vsched.Quiesce()
+			switch {
+			case !rdone.Get():
+				viol = append(viol, V("client-reopen:roots-unanswered", "after the first stream's goroutine unwound, roots/list sent to the session on its new stream is never answered by the client; blocked: %v", vsched.LiveThreads()))
+			case rerr != nil || rootsOf(roots) != "file:///second-life":
+				viol = append(viol, V("client-reopen:roots-wrong", "roots/list on the new stream: %q %v", rootsOf(roots), rerr))
+			}
+		}
 		gets := ""
 		for _, x := range r.Fab.Log() {
 			if x.Method == "GET" {
